@@ -7,7 +7,7 @@
    unchanged under both settings ([Some cap]: finding F2 open; [None]: lexer repaired). *)
 From Coq Require Import String.
 From HV Require Import Lib.Base C20.Model C20.LexProofs C20.FieldProofs C20.LineProofs C20.ZoneProofs
-  C20.WfProofs C20.ExampleProofs.
+  C20.WfProofs C20.ExampleProofs C20.EofProofs.
 Open Scope N_scope.
 
 (* ---- never an endless loop --------------------------------------------------------- *)
@@ -88,7 +88,8 @@ Print Assumptions C20_line_layout.
    sequences follow the master-file grammar [ZoneToks] for the records [rs] (owner absolute,
    origin-relative, @ or inherited from the previous record; TTL (decimal or with s/m/h/d/w
    units) and class stated in either order or inherited from $TTL / the last stated value; class
-   and type mnemonics in any letter case; $ORIGIN and $TTL directives, blank and comment
+   and type mnemonics in any letter case; $ORIGIN (with an absolute name, or a relative one that
+   is completed with the origin then in force) and $TTL directives, blank and comment
    lines anywhere; RDATA words plain, quoted or gathered in parentheses), with well-formed,
    pairwise distinct records: the loader without the cap returns exactly [rs], in order. *)
 Theorem C20_roundtrip_nocap : forall o lines rs,
@@ -161,22 +162,48 @@ Theorem C20_at_in_rdata_refuted : parse ex_o (nl "a 60 IN NS @") = RErr 2.
 Proof. vm_compute. reflexivity. Qed.
 Print Assumptions C20_at_in_rdata_refuted.
 
-(* F2e: a relative name after $ORIGIN is not completed with the current origin:
-   "$ORIGIN sub" under example.com. makes www mean www.sub. instead of www.sub.example.com. *)
-Theorem C20_relative_origin_refuted :
-  parse ex_o (nl "$ORIGIN sub" ++ nl "www 60 IN A 192.0.2.1") =
-    ROk [MkRR (abs_name [s2l "www"; s2l "sub"]) 1 60 (DA 192 0 2 1)].
-Proof. vm_compute. reflexivity. Qed.
-Print Assumptions C20_relative_origin_refuted.
+(* F2e (repaired): a relative name after $ORIGIN is completed with the current origin.  The
+   grammar of the round-trip theorems covers it (LineToks.lt_origin: any NameText of the new
+   origin); stated on its own: a zone that starts with "$ORIGIN rel" (any layout [l] of that line),
+   loaded under the origin [o], is the rest of the zone loaded under rel.o *)
+Theorem C20_relative_origin : forall o rel l lines rs,
+  rel <> [] -> name_ok (rel ++ o) = true ->
+  line_ok l = true -> line_tokens l = [TOrigin; TChar (print_rel rel); TEOL] ->
+  forallb line_ok lines = true ->
+  ZoneToks (ps0 (rel ++ o)) (map line_tokens lines) rs ->
+  forallb srec_ok rs = true ->
+  distinct (map denote rs) = true ->
+  parse_nocap (Some (abs_name o)) (render_zone (l :: lines)) = ROk (map denote rs).
+Proof.
+  intros o rel l lines rs Hne Hok Hl Ht Hls HZ Hrs Hd.
+  apply zone_roundtrip_nocap; [cbn [forallb]; now rewrite Hl| |exact Hrs|exact Hd].
+  cbn [map]. rewrite Ht. eapply zt_skip; [|exact HZ].
+  apply (lt_origin (ps0 o) (rel ++ o) (print_rel rel) Hok). now apply nt_rel.
+Qed.
+Print Assumptions C20_relative_origin.
 
-(* F2c: "malformed text yields an error" is false when the file ends inside parentheses right
-   after a word or inside a comment: the group is dropped silently *)
-Theorem C20_eof_in_parens_refuted :
-  parse ex_o (s2l "a 60 IN TXT ( b c") = ROk [MkRR ex_a 1 60 (DTXT [s2l "c"])] /\
-  parse ex_o (s2l "a 60 IN TXT ( b c ;") = ROk [MkRR ex_a 1 60 (DTXT [])] /\
-  parse ex_o (s2l "a 60 IN TXT ( b c ") = RErr 1.
-Proof. repeat split; vm_compute; reflexivity. Qed.
-Print Assumptions C20_eof_in_parens_refuted.
+(* F2c (repaired): a text that ends inside parentheses is never accepted.  Whatever precedes the
+   opening parenthesis (any text [pre] after which the lexer is at the start of a line, or in the
+   middle of one and then after any blanks [bl]; [toks] are the tokens of [pre]) and whatever
+   follows it, if the closing parenthesis is missing ([closes]: no ")" outside a comment up to
+   the end of the text) the load is an error (or outside the model: $INCLUDE of an absolute path
+   before it; a panic only for the lexer with the cap). *)
+Theorem C20_eof_in_parens_is_error : forall o pre bl toks r st,
+  at_open st bl ->
+  Toks next_token_nocap (pre ++ bl ++ 40 :: r) SStartLine toks (bl ++ 40 :: r) st ->
+  closes false r = false ->
+  (exists k, parse o (pre ++ bl ++ 40 :: r) = RErr k) \/ parse o (pre ++ bl ++ 40 :: r) = RUnmod \/
+  (lex_cap <> None /\ parse o (pre ++ bl ++ 40 :: r) = RPanic).
+Proof. exact parse_unclosed. Qed.
+Print Assumptions C20_eof_in_parens_is_error.
+
+(* at the lexer: an opening parenthesis that is never closed yields an error, never a token or
+   the end-of-input result *)
+Theorem C20_unclosed_list_lexer_error : forall bl r st,
+  at_open st bl -> closes false r = false ->
+  exists e, next_token_nocap (bl ++ 40 :: r) st = LErr e.
+Proof. exact next_token_unclosed. Qed.
+Print Assumptions C20_unclosed_list_lexer_error.
 
 (* F2d: RDATA fields after the last expected one are ignored instead of refused *)
 Theorem C20_trailing_field_refuted :
@@ -194,6 +221,33 @@ Example C20_short_text_example :
   parse ex_o (s2l "www 60 IN A 192.0.2.256") = RErr 2 /\
   parse ex_o (s2l "www 60 IN TXT ""abc") = RErr 1.
 Proof. cbv zeta. split; [cbn; lia|]. vm_compute. auto. Qed.
+
+(* the former witnesses of F2e and F2c: the relative $ORIGIN is completed; the three texts that
+   end inside parentheses are refused; the hypotheses of C20_eof_in_parens_is_error and of
+   C20_relative_origin hold for them *)
+Example C20_relative_origin_example :
+  parse ex_o (nl "$ORIGIN sub" ++ nl "www 60 IN A 192.0.2.1") =
+    ROk [MkRR (abs_name [s2l "www"; s2l "sub"; s2l "example"; s2l "com"]) 1 60 (DA 192 0 2 1)] /\
+  let l := MkLine [] [(IDir DOrigin, [32]); (IWord (s2l "sub"), [])] None [10] in
+  line_ok l = true /\ line_tokens l = [TOrigin; TChar (print_rel [s2l "sub"]); TEOL] /\
+  render_line l = nl "$ORIGIN sub" /\ name_ok ([s2l "sub"] ++ [s2l "example"; s2l "com"]) = true.
+Proof. cbv zeta. repeat split; vm_compute; reflexivity. Qed.
+
+Example C20_eof_in_parens_example :
+  parse ex_o (s2l "a 60 IN TXT ( b c") = RErr 1 /\
+  parse ex_o (s2l "a 60 IN TXT ( b c ;") = RErr 1 /\
+  parse ex_o (s2l "a 60 IN TXT ( b c ") = RErr 1 /\
+  parse ex_o (nl "a 60 IN TXT ( b c )") = ROk [MkRR ex_a 1 60 (DTXT [s2l "b"; s2l "c"])] /\
+  at_open SRestOfLine [32] /\
+  Toks next_token_nocap (s2l "a 60 IN TXT" ++ [32] ++ 40 :: s2l " b c ;)") SStartLine
+       [TChar (s2l "a"); TChar (s2l "60"); TChar (s2l "IN"); TChar (s2l "TXT")]
+       ([32] ++ 40 :: s2l " b c ;)") SRestOfLine /\
+  closes false (s2l " b c ;)") = false /\ closes false (s2l " b c )") = true.
+Proof.
+  repeat split; try (vm_compute; reflexivity).
+  - right. split; reflexivity.
+  - repeat (eapply toks_cons; [vm_compute; reflexivity|]). apply toks_nil.
+Qed.
 
 (* the hypotheses of the round-trip theorems hold for a nine-line zone using every layout
    feature of the grammar (ExampleProofs.v); its text, and what it loads to *)
